@@ -1,5 +1,8 @@
 import SFV.Lemmas.Ledger
 import SFV.Lemmas.Slots
+import SFV.Lemmas.Refine
+import SFV.Lemmas.RefineStack
+import SFV.Lemmas.RefineSlots
 import SFV.Lemmas.HW
 import SFV.Model.Sched
 /-! # C10 — the scheduler never over-allocates a location
@@ -86,6 +89,115 @@ theorem allocLevels_single (reqs : List (Sched.LocKey × Hardware)) (job : Nat) 
   cases hc : Sched.assocGet s.reserved lvl.name with
   | none => simp only []; cases h.normalized <;> rfl
   | some cur => simp only []; cases cur.add h <;> rfl
+
+/-- **whole-run refinement (machine-checked link between the two models)**: take any run of the Hardware-level
+    scheduler model — the model compared with the real `DefaultScheduler` after every call — made of passes of
+    `_process_target` and notifications, none of which raises, on *flat* configurations (`Refine.FlatAvail`: every
+    available location is a hardware location without inner levels; single- and multi-location targets, any number of
+    deployments) and following the engine protocol (`Refine.RunOk`, decidable). Then for the component `c` (cores:
+    `Refine.coresComp`, memory: `Refine.memoryComp`) the final state is related (`Refine.Rel`) to a ledger state that
+    satisfies the bookkeeping invariant: `hardware_locations[ℓ].c` = what the fireable / running jobs were given on ℓ
+    (+ residual ≥ 0), and that sum is within the capacity. -/
+theorem sched_refines_ledger (c : Refine.Comp) (cap : Loc → Rat) (hcap : ∀ ℓ, 0 ≤ cap ℓ) (env : Sched.Env)
+    (ops : List Refine.SOp) (s : Sched.St) (hok : Refine.RunOk c cap env {} ops) (hrun : Refine.runS env {} ops = some s) :
+    ∃ L : Ledger.St,
+      (∀ ℓ, L.reserved ℓ = c.get (Sched.reservedOf s ℓ)) ∧
+      (∀ j a, Sched.assocGet s.jobs j = some a → j ∈ L.ids ∧ L.status j = a.status ∧ L.alloc j = Refine.entriesOf c a) ∧
+      (∀ ℓ, c.get (Sched.reservedOf s ℓ) = occSum L ℓ + L.residual ℓ ∧ 0 ≤ L.residual ℓ) ∧
+      (∀ ℓ, occSum L ℓ ≤ cap ℓ) := by
+  obtain ⟨L, hR, hI⟩ := Refine.run_refines c cap env ops {} s Ledger.init (Refine.rel_init c) (inv_init cap hcap) hok hrun
+  refine ⟨L, hR.reserved, fun j a ha => ⟨(hR.ids j).mpr (by simp [ha]), (hR.jobs j a ha).1, (hR.jobs j a ha).2⟩,
+    fun ℓ => ⟨by rw [← hR.reserved ℓ]; exact hI.books ℓ, hI.resid ℓ⟩, hI.bound⟩
+
+/-- one step of that refinement, allocation side: a successful pass of `_process_target` is the ledger's guarded
+    allocation (the guard `reserved + amount ≤ capacity` holds at every selected location) -/
+theorem pass_refines_allocate (c : Refine.Comp) (cap : Loc → Rat) (env : Sched.Env) (s s' : Sched.St) (L : Ledger.St)
+    (job step : Nat) (tag : Tag) (req : Hardware) (target wanted : Nat) (avail : List Sched.Stack) (names : List Nat)
+    (hR : Refine.Rel c s L)
+    (havail : ∀ st ∈ avail, ∃ lvl cp, st = [lvl] ∧ lvl.hardware = some cp ∧ c.get cp = cap lvl.name)
+    (hnd : (avail.map Refine.keyOf).Nodup)
+    (h : Sched.tryAllocate env s job step tag req target wanted avail = (s', .allocated names)) :
+    ∃ entries, (entries.all fun e => decide (L.reserved e.1 + e.2 ≤ cap e.1)) = true ∧ (∀ e ∈ entries, e.2 = c.get req) ∧
+      Refine.Rel c s' (Ledger.step cap L (.allocate job entries)) := by
+  obtain ⟨e, h1, h2, _, h4⟩ := Refine.tryAllocate_refines c cap env s s' L job step tag req target wanted avail names hR havail hnd h
+  exact ⟨e, h1, h2, h4⟩
+
+/-- … and notification side: a non-raising `notify_status` is the ledger's notification -/
+theorem notify_refines_notify (c : Refine.Comp) (cap : Loc → Rat) (env : Sched.Env) (s s' : Sched.St) (L : Ledger.St)
+    (j : Nat) (new : Status) (b : Bool) (hR : Refine.Rel c s L) (h : Sched.notify env s j new = (s', .done b)) :
+    Refine.Rel c s' (Ledger.step cap L (.notify j new [])) :=
+  Refine.notify_refines c cap env s s' L j new b hR h
+
+/-! non-vacuity of the refinement: two 2-core jobs on a 2-core / 4-MB location of deployment 1; the second waits, is
+    granted after the first completes; protocol and flatness hold for cores and for memory -/
+def exLoc : Sched.Stack := [⟨1, 2, some ⟨2, 4, [(0, ⟨0, 10, [], none⟩)]⟩, none⟩]
+def exReq : Hardware := ⟨2, 1, [(0, ⟨0, 0, [], none⟩)]⟩
+def exRun : List Refine.SOp :=
+  [.pass 1 1 [0] exReq 0 1 [exLoc], .pass 2 2 [0] exReq 0 1 [exLoc], .notify 1 .running, .notify 1 .completed,
+   .pass 2 2 [0] exReq 0 1 [exLoc], .notify 1 .completed, .notify 2 .running]
+
+example : Refine.RunOk Refine.coresComp (fun _ => 2) {} {} exRun ∧ Refine.RunOk Refine.memoryComp (fun _ => 4) {} {} exRun := by
+  decide +kernel
+example : ((Refine.runS {} {} exRun).map (fun s => (Sched.reservedOf s 2).cores)) = some 2 ∧
+    ((Refine.runS {} {} (exRun.take 2)).map (fun s => s.jobs.length)) = some 1 := by decide +kernel
+
+/-- **whole-run refinement on STACKED configurations**: as `sched_refines_ledger`, for available locations that are chains
+    of hardware locations (a wrapper stacked on inner locations, any depth; single- and multi-location targets), provided
+    no level is shared between two available locations of a pass (`RefineStack.StackedAvail`, decidable — the shared
+    inner location is the known finding). The ledger entries of an allocation are one per level of every selected
+    location; the release walks the levels through `bind_mount_point` and subtracts the same amounts. -/
+theorem sched_refines_ledger_stacked (c : Refine.Comp) (cap : Loc → Rat) (hcap : ∀ ℓ, 0 ≤ cap ℓ) (env : Sched.Env)
+    (ops : List Refine.SOp) (s : Sched.St) (hok : RefineStack.RunOk c cap env {} ops) (hrun : Refine.runS env {} ops = some s) :
+    ∃ L : Ledger.St,
+      (∀ ℓ, L.reserved ℓ = c.get (Sched.reservedOf s ℓ)) ∧
+      (∀ j a, Sched.assocGet s.jobs j = some a → j ∈ L.ids ∧ L.status j = a.status ∧ L.alloc j = RefineStack.entriesOfS c a) ∧
+      (∀ ℓ, c.get (Sched.reservedOf s ℓ) = occSum L ℓ + L.residual ℓ ∧ 0 ≤ L.residual ℓ) ∧
+      (∀ ℓ, occSum L ℓ ≤ cap ℓ) := by
+  obtain ⟨L, hR, hI⟩ := RefineStack.run_refines c cap env ops {} s Ledger.init (RefineStack.relS_init c) (inv_init cap hcap) hok hrun
+  refine ⟨L, hR.reserved, fun j a ha => ⟨(hR.ids j).mpr (by simp [ha]), (hR.jobs j a ha).1, (hR.jobs j a ha).2⟩,
+    fun ℓ => ⟨by rw [← hR.reserved ℓ]; exact hI.books ℓ, hI.resid ℓ⟩, hI.bound⟩
+
+/-! non-vacuity (stacked): a 2-core container (deployment 3, location 4) stacked on a 2-core host (deployment 1, location 2);
+    two 2-core jobs, the second is granted after the first completes; both levels are reserved and released -/
+def exStack : Sched.Stack := [⟨3, 4, some ⟨2, 4, [(0, ⟨0, 10, [], none⟩)]⟩, none⟩, ⟨1, 2, some ⟨2, 4, [(0, ⟨0, 10, [], none⟩)]⟩, none⟩]
+def exRunS : List Refine.SOp :=
+  [.pass 1 1 [0] exReq 0 1 [exStack], .pass 2 2 [0] exReq 0 1 [exStack], .notify 1 .running, .notify 1 .completed,
+   .pass 2 2 [0] exReq 0 1 [exStack], .notify 2 .running]
+
+example : RefineStack.RunOk Refine.coresComp (fun _ => 2) {} {} exRunS ∧ RefineStack.RunOk Refine.memoryComp (fun _ => 4) {} {} exRunS := by
+  decide +kernel
+example : ((Refine.runS {} {} exRunS).map (fun s => ((Sched.reservedOf s 4).cores, (Sched.reservedOf s 2).cores))) = some (2, 2) ∧
+    ((Refine.runS {} {} (exRunS.take 4)).map (fun s => ((Sched.reservedOf s 4).cores, (Sched.reservedOf s 2).cores))) = some (0, 0) := by
+  decide +kernel
+
+/-- **whole-run refinement for slot-only locations**: every non-raising run of the Hardware-level scheduler model on flat
+    configurations whose available locations have no hardware information (`RefineSlots.SlotAvail`: slot-only locations
+    without inner levels, distinct names, `slots` as configured or the extracted default), following the engine protocol
+    (`RefineSlots.RunOk`, decidable), ends in a state related to a state of the slot bookkeeping that satisfies its
+    invariant: same job table, the location job lists `location_allocations[…].jobs` are the model's `listed`, and on every
+    location the number of fireable / running jobs placed there is at most the slots — the second sentence of the
+    property, now for the model that is compared with the real scheduler. -/
+theorem sched_refines_slots (g : RefineSlots.Cfg) (env : Sched.Env) (ops : List Refine.SOp) (s : Sched.St)
+    (hok : RefineSlots.RunOk g env {} ops) (hrun : Refine.runS env {} ops = some s) :
+    ∃ T : Slots.St,
+      (∀ j a, Sched.assocGet s.jobs j = some a → j ∈ T.ids ∧ T.status j = a.status ∧ T.placed j = RefineSlots.namesOf a.locations) ∧
+      (∀ ℓ, T.listed ℓ = RefineSlots.listedOf g s ℓ) ∧
+      (∀ ℓ, Slots.occCount T ℓ ≤ g.slots ℓ) := by
+  obtain ⟨T, hR, hI⟩ := RefineSlots.run_refines g env ops {} s Slots.init (RefineSlots.relSl_init g) (Slots.inv_init g.toSlots) hok hrun
+  exact ⟨T, fun j a ha => ⟨(hR.ids j).mpr (by simp [ha]), (hR.jobs j a ha).1, (hR.jobs j a ha).2.1⟩, hR.listed, hI.bound⟩
+
+/-! non-vacuity (slots): three jobs on a two-slot location; the third waits until the first completes; the second is
+    rolled back, un-listed and allocated again -/
+def exG : RefineSlots.Cfg := ⟨fun _ => 1, fun _ => 2, fun j => j, fun _ => [0]⟩
+def exSlotLoc : Sched.Stack := [⟨1, 5, none, some 2⟩]
+def exReq0 : Hardware := ⟨1, 1, [(0, ⟨0, 0, [], none⟩)]⟩
+def exRunSl : List Refine.SOp :=
+  [.pass 1 1 [0] exReq0 0 1 [exSlotLoc], .pass 2 2 [0] exReq0 0 1 [exSlotLoc], .pass 3 3 [0] exReq0 0 1 [exSlotLoc],
+   .notify 1 .running, .notify 1 .completed, .pass 3 3 [0] exReq0 0 1 [exSlotLoc], .notify 2 .rollback,
+   .pass 2 2 [0] exReq0 0 1 [exSlotLoc]]
+example : RefineSlots.RunOk exG {} {} exRunSl := by decide +kernel
+example : ((Refine.runS {} {} exRunSl).map (fun s => s.locJobs)) = some [((1, 5), [1, 3, 2])] ∧
+    ((Refine.runS {} {} (exRunSl.take 3)).map (fun s => s.jobs.length)) = some 2 := by decide +kernel
 
 /-- **bookkeeping invariant** (every history that follows the protocol, every configuration): at every location the
     reserved amount is what the occupying jobs were given there plus the measured usage left by finished jobs -/
